@@ -27,6 +27,12 @@ Terms(p, e) ==
 RECURSIVE Sum(_)
 Sum(v) == IF v = <<>> THEN <<>> ELSE Terms(v[1][1], v[1][2]) \o Sum(Tail(v))
 
+(* vector Pedersen commitments: k values under a key with n >= k generators g_1..g_n and blinding base h commit to
+   sum_{i <= k} v_i * g_i + r * h - the blinding base is h whatever k is *)
+VecCommitRows == { [kind |-> "vec_commit", n |-> n, values |-> vs, r |-> r] : n \in {1, 2, 5}, r \in {"0", "1", "rand1"},
+                   vs \in UNION {[1..k -> {"0", "1", "r-1", "rand2"}] : k \in 0..2} \cup {[i \in 1..5 |-> "rand1"]} }
+VecCommitOk(row) == Len(row.values) <= row.n
+
 VARIABLE vec
 (* longer vectors: the same point five times, all point classes in a row, a point and its inverse interleaved *)
 LongVecs == {[i \in 1..5 |-> <<"g", e>>] : e \in Scalars}
@@ -39,4 +45,5 @@ MSpec == MInit /\ [][UNCHANGED vec]_vec
 Neutral == (\A i \in 1..Len(vec) : vec[i][1] = "id" \/ vec[i][2] = "0") => Sum(vec) = <<>>
 (* g and -g with the same scalar cancel: the sum of their terms has as many +g as -g terms for that scalar *)
 MExport == PrintT(<<"REPLAY", ToJson([kind |-> "multiexp", vec |-> vec, sum |-> Sum(vec)])>>)
+ASSUME PrintT(<<"ROWS", ToJson({[kind |-> "vec_commit", n |-> row.n, values |-> row.values, r |-> row.r, ok |-> VecCommitOk(row)] : row \in VecCommitRows})>>)
 =============================================================================
